@@ -15,10 +15,19 @@
   `lt = true` is the code as found (skip test `fileBlock+count < startBlock`),
   `lt = false` the repaired test (`≤`).
 
-  Not mirrored: a hole *before* an extent (offset < fileBlock*blocksize at a
-  non-skipped extent; Go then adds a negative int64 to the disk offset).  The
-  library never produces such a list (allocateExtents numbers file blocks
-  contiguously); the mirror answers `weird` there.
+  File.Read zero-fills a hole in front of an extent and whatever lies behind
+  the last extent below the file size (fix ea015d2); the mirror does the same.
+  File.Write has no such branch: in front of a hole Go adds a negative int64
+  to the disk offset; the mirror computes the same offset in `Int`.  The
+  library never produces a list with holes (allocateExtents numbers file
+  blocks contiguously).
+
+  `cum = false` is the write loop as found: it leaves the extent list only
+  when ONE WriteAt took the whole buffer (`written >= len(b)`), so a write
+  that spans extents goes on with empty writes over every remaining extent,
+  at device offsets that can be negative (finding
+  `ext4-write-trailing-empty-writes`); `cum = true` is the repaired test
+  (`writtenBytes >= bytesToWrite`).
 -/
 import DiskfsModel.Core.Bytes
 namespace Diskfs.Ext4
@@ -50,27 +59,35 @@ structure RdOut where
   off : Nat                  -- handle offset afterwards
 deriving Repr, DecidableEq
 
-/-- the `for _, e := range fl.extents` loop of File.Read.
+/-- the `for _, e := range fl.extents` loop of File.Read, followed by the zero fill behind the last extent.
     `want` = bytesToRead, `got` = bytes read so far (`readBytes = got.length`). -/
 def readLoop (lt : Bool) (dev : Dev) (bs startBlock want : Nat) :
     List Extent → (off : Nat) → (got : Bytes) → (ios : List (Nat × Nat)) → IO RdOut
-  | [], off, got, ios => .ok ⟨got, ios, off⟩
+  | [], off, got, ios =>
+    -- whatever lies beyond the last extent and below the file size is a hole as well
+    .ok ⟨got ++ zeros (want - got.length), ios, off + (want - got.length)⟩
   | e :: es, off, got, ios =>
     if skips lt e startBlock then readLoop lt dev bs startBlock want es off got ios
-    else if off < e.fileBlock * bs then .weird
     else
       let extentSize := e.count * bs
-      let startPos := off - e.fileBlock * bs
-      -- leftInExtent = extentSize - startPos is negative: toReadInOffset < 0, make panics
-      if startPos > extentSize then .panic
+      let holeEnd := e.fileBlock * bs
+      -- a hole in front of this extent reads as zeros
+      let z := if off < holeEnd then min (holeEnd - off) (want - got.length) else 0
+      if off < holeEnd ∧ got.length + z ≥ want then .ok ⟨got ++ zeros z, ios, off + z⟩
       else
-        let left := extentSize - startPos
-        let toRead := min (want - got.length) left
-        let disk := e.start * bs + startPos
-        let got' := got ++ readAt dev disk toRead
-        let ios' := ios ++ [(disk, toRead)]
-        if got'.length ≥ want then .ok ⟨got', ios', off + toRead⟩
-        else readLoop lt dev bs startBlock want es (off + toRead) got' ios'
+        let got := got ++ zeros z
+        let off := off + z
+        let startPos := off - holeEnd
+        -- leftInExtent = extentSize - startPos is negative: toReadInOffset < 0, make panics
+        if startPos > extentSize then .panic
+        else
+          let left := extentSize - startPos
+          let toRead := min (want - got.length) left
+          let disk := e.start * bs + startPos
+          let got' := got ++ readAt dev disk toRead
+          let ios' := ios ++ [(disk, toRead)]
+          if got'.length ≥ want then .ok ⟨got', ios', off + toRead⟩
+          else readLoop lt dev bs startBlock want es (off + toRead) got' ios'
 
 structure ReadRes where
   data : Bytes
@@ -92,19 +109,27 @@ def readE (lt : Bool) (dev : Dev) (bs : Nat) (es : List Extent) (size off n : Na
     | .err => .err
 
 structure WrOut where
-  ws : List (Int × Bytes)     -- (device byte offset, data) of every WriteAt, in order
+  ws : List (Int × Bytes)     -- (device byte offset, data) of every WriteAt that was carried out, in order
   written : Nat
   off : Nat
 deriving Repr, DecidableEq
 
-/-- the write loop of File.Write: like the read loop, but it stops only when ONE WriteAt took the
-    whole buffer (`written >= len(b)`); otherwise it walks the remaining extents issuing zero-length
-    writes at `startingBlock*bs + (offset - fileBlock*bs)` (an int64, possibly negative). -/
-def writeLoop (lt : Bool) (bs startBlock : Nat) (b : Bytes) :
-    List Extent → (off : Nat) → (written : Nat) → (ws : List (Int × Bytes)) → IO WrOut
+/-- outcome of the write loop -/
+inductive WIO where
+  | ok (r : WrOut)
+  | panic                 -- makeslice: len out of range
+  | err (r : WrOut)       -- WriteAt refused a negative device offset; `r` = what had been done before it
+deriving Repr, DecidableEq
+
+/-- the write loop of File.Write.  As found (`cum = false`) it stops only when ONE WriteAt took the whole
+    buffer (`written >= len(b)`); otherwise it walks the remaining extents issuing zero-length writes at
+    `startingBlock*bs + (offset - fileBlock*bs)` (an int64, possibly negative).  Repaired (`cum = true`) it
+    stops as soon as the sum of the bytes written reaches `len(b)`. -/
+def writeLoop (lt cum : Bool) (bs startBlock : Nat) (b : Bytes) :
+    List Extent → (off : Nat) → (written : Nat) → (ws : List (Int × Bytes)) → WIO
   | [], off, written, ws => .ok ⟨ws, written, off⟩
   | e :: es, off, written, ws =>
-    if skips lt e startBlock then writeLoop lt bs startBlock b es off written ws
+    if skips lt e startBlock then writeLoop lt cum bs startBlock b es off written ws
     else
       let extentSize : Int := e.count * bs
       let startPos : Int := (off : Int) - e.fileBlock * bs
@@ -114,13 +139,13 @@ def writeLoop (lt : Bool) (bs startBlock : Nat) (b : Bytes) :
       if toWrite < 0 then .panic
       else
         let disk : Int := e.start * bs + startPos
-        if disk < 0 then .err
+        if disk < 0 then .err ⟨ws, written, off⟩
         else
           let k := toWrite.toNat
           let piece := (b.drop written).take k
           let ws' := ws ++ [(disk, piece)]
-          if k ≥ b.length then .ok ⟨ws', written + k, off + k⟩
-          else writeLoop lt bs startBlock b es (off + k) (written + k) ws'
+          if (if cum then written + k ≥ b.length else k ≥ b.length) then .ok ⟨ws', written + k, off + k⟩
+          else writeLoop lt cum bs startBlock b es (off + k) (written + k) ws'
 
 structure WriteRes where
   ws : List (Int × Bytes)
@@ -129,19 +154,28 @@ structure WriteRes where
   size : Nat
 deriving Repr, DecidableEq
 
+/-- outcome of File.Write -/
+inductive WRes where
+  | ok (r : WriteRes)
+  | panic
+  | needAlloc             -- Write needs more blocks (the allocator is outside this core)
+  | err (r : WriteRes)    -- Write returns (written, error): WriteAt refused a negative offset
+deriving Repr, DecidableEq
+
 /-- File.Write(b) when no new block is needed (the size bookkeeping in front of the loop included). -/
-def writeE (lt : Bool) (bs : Nat) (es : List Extent) (size off : Nat) (b : Bytes) : IO WriteRes :=
+def writeE (lt cum : Bool) (bs : Nat) (es : List Extent) (size off : Nat) (b : Bytes) : WRes :=
   let size1 := if off ≥ size then off else size
   let size2 := if off + b.length > size1 then off + b.length else size1
   let newBlockCount := size2 / bs + (if size2 % bs > 0 then 1 else 0)
   if newBlockCount > blockCount es then .needAlloc
   else
-    match writeLoop lt bs (off / bs) b es off 0 [] with
+    match writeLoop lt cum bs (off / bs) b es off 0 [] with
     | .ok r => .ok ⟨r.ws, r.written, r.off, size2⟩
     | .panic => .panic
-    | .weird => .weird
-    | .needAlloc => .needAlloc
-    | .err => .err
+    | .err r => .err ⟨r.ws, r.written, r.off, size2⟩
+
+/-- the write list as device writes (offsets are non-negative for every WriteAt that was carried out) -/
+def toWrs (ws : List (Int × Bytes)) : List Wr := ws.map fun p => ⟨p.1.toNat, p.2⟩
 
 /-- the trigger predicate of finding ext4-extent-skip-lt: the transfer starts inside a block (not at its
     first byte) and some extent ends exactly at that block. -/
@@ -163,5 +197,18 @@ def Contig : Nat → List Extent → Prop
 /-- `ExtentsCover es size`: contiguous from block 0 and at least `size` bytes long -/
 def ExtentsCover (bs : Nat) (es : List Extent) (size : Nat) : Prop :=
   Contig 0 es ∧ size ≤ blockCount es * bs
+
+/-- `d` written over `F` at position `p` (the reference meaning of a write at an offset) -/
+def splice (F : Bytes) (p : Nat) (d : Bytes) : Bytes := F.take p ++ d ++ F.drop (p + d.length)
+
+/-- no two extents share a device block (what the allocator guarantees: alloc_disjoint) -/
+def DiskDisjoint (es : List Extent) : Prop :=
+  es.Pairwise fun a b => a.start + a.count ≤ b.start ∨ b.start + b.count ≤ a.start
+
+/-- the trigger predicate of finding ext4-write-trailing-empty-writes: the write crosses the end of an extent
+    and an extent that starts at or behind the end of the written range would be addressed below device offset 0 -/
+def trailTrigger (es : List Extent) (bs off n : Nat) : Bool :=
+  es.any (fun e => decide (off / bs < e.fileBlock + e.count ∧ (e.fileBlock + e.count) * bs < off + n)) &&
+  es.any (fun e => decide (off + n ≤ e.fileBlock * bs ∧ e.start * bs + (off + n) < e.fileBlock * bs))
 
 end Diskfs.Ext4
